@@ -89,6 +89,15 @@ def run(ctx):
                     arg = tgt[0]
                 elif mode == 'seq':
                     tgt = [int(v) for v in rng.choice(ids, size=min(len(ids), int(rng.integers(2, 5))), replace=False)]
+                    par_ = dict(zip(ids, f['parents']))
+                    below = [i for i in ids if par_[i] >= 0]
+                    if below and rng.random() < 0.5:
+                        # a node below a root, THEN that root: when its turn comes it is a root no longer and must be rerooted to again
+                        a_ = int(below[int(rng.integers(len(below)))])
+                        r_ = a_
+                        while par_[r_] >= 0:
+                            r_ = par_[r_]
+                        tgt = [a_, int(r_)] + [t_ for t_ in tgt[:1] if t_ not in (a_, r_)]
                     arg = list(tgt)
                 else:
                     k = single[int(rng.integers(len(single)))]
